@@ -508,6 +508,11 @@ func (e *Engine) convert(st *State, x Value, from, to types.Type) Value {
 			return nv // uintptr -> C.uintptr_t and the like: still the same address
 		}
 		switch xv := x.(type) {
+		case FloatSym:
+			if tw == 64 {
+				return xv.Sec
+			}
+			return c.Extract(xv.Sec, tw-1, 0)
 		case *smt.Term:
 			_, fs, _ := intInfo(from)
 			if xv.S.W >= tw {
